@@ -15,6 +15,7 @@ import Pandora.Bridge.C19
 import Pandora.Proofs.C19Run
 import Pandora.Bridge.C19Run
 import Pandora.Proofs.C19R6
+import Pandora.Model.C02Sched
 
 namespace Pandora.Props.C19
 open Pandora.Model.C10 Pandora.Model.C19 Pandora.Proofs.C19
@@ -961,5 +962,62 @@ def r6Demo : List Model.C04.Iter :=
 example : Proofs.C04.ClockOK {} r6Demo ∧
     ((Model.C04.runLoop .fresh true {} r6Demo).1.map Model.C04.Ev.isShoot) = [true, false, true] ∧
     (R6.drawnTokens (fun _ => { reports := [] }) {} r6Demo).map (·.slowDown) = [false, true, false] := by decide
+
+/-- the seeded change C19-r5-3 as a model: `Wait` of the current source except that the overdue is NOT reset in front of
+the timer wait (a token in the future leaves the overdue of the last late token behind) -/
+def waitStale (w : Model.C04.Waiter) (e : Model.C04.Env) : Model.C04.Res :=
+  let r := Model.C04.wait w e
+  match r.path with
+  | .timer | .timerCancel => { r with w := { r.w with overdue := w.overdue } }
+  | _ => r
+
+/-- the loop of `instance.Run` over that waiter (shape of `Model.C04.runLoop`; `true` = the token is shot) -/
+def runStale (discard : Bool) : Model.C04.Waiter → List Model.C04.Iter → List Bool
+  | _, [] => []
+  | w, it :: rest =>
+    if it.finished || !it.ammoOk then [] else
+    let r := waitStale w it.env
+    if !r.ok then runStale discard r.w rest
+    else Model.C04.fires discard (Model.C04.isSlowDown r.w it.ctxDoneSlow) :: runStale discard r.w rest
+
+/-- …and why the reset matters: with the stale overdue the history `r6Demo` (one slow answer) loses its third token —
+due 300 ms AFTER the instance asks for it — and with it every later one: conjunct 6 of
+`C19_slow_answer_costs_only_late_tokens` is false of that waiter. The seeded change is a proved violation, not only a
+broken bridge. -/
+theorem C19_stale_overdue_counterexample :
+    Proofs.C04.ClockOK {} r6Demo ∧ runStale true {} r6Demo = [true, false, false] ∧
+    ((Model.C04.runLoop .fresh true {} r6Demo).1.map Model.C04.Ev.isShoot) = [true, false, true] := by decide
+
+/-- schedule → waiter → instance, over C02's model of a schedule leaf (`Model.C02.Leaf.fin`: once / const / line / step
+profiles are lists of offsets) and C04's waiter of the current source: whatever the target did before, the instance never
+acts on token `i` of a started profile before `start + offs[i]` — `Wait` returns true (at instant `e.ret`) only for a token
+the schedule handed out, and not before its instant (clock hypotheses `EnvOK`, cached reading not ahead of the clock). A
+slow target can make shots LATE (and, with discard_overflow, cost them), it cannot pull later shots forward. -/
+theorem C19_shot_not_before_profile_instant (offs : List Int) (dur : Int) (i : Nat) (start now : Int)
+    (l' : Model.C02.Leaf) (tx : Int) (w : Model.C04.Waiter) (e : Model.C04.Env)
+    (hn : Model.C02.Leaf.next (.fin offs dur i (some start)) now = .ok (l', tx, true))
+    (htok : e.tok = some tx) (hok : Proofs.C04.EnvOK e) (hinv : w.lastNow ≤ e.now)
+    (h : (Gen.Waiter.Wait w e).2 = true) :
+    ∃ o, offs[i]? = some o ∧ tx = start + o ∧ start + o ≤ e.ret := by
+  rw [Bridge.Waiter.Wait_eq] at h
+  obtain ⟨next, h1, h2, _⟩ := Proofs.C04.waitV_ok .fresh w e hok hinv h
+  rw [htok] at h1
+  cases h1
+  unfold Model.C02.Leaf.next at hn
+  cases ho : offs[i]? with
+  | none => simp [ho] at hn
+  | some o =>
+    simp [ho] at hn
+    exact ⟨o, rfl, hn.2.symm, by omega⟩
+
+-- C19_shot_not_before_profile_instant: token 1 of const 2/s (offsets 0, 500 ms), started at t = 1.7e18, asked for 100 ms early
+example :
+    Model.C02.Leaf.next (.fin [0, 500000000] 1000000000 1 (some 1700000000000000000)) 1700000000000000000 =
+      .ok (.fin [0, 500000000] 1000000000 2 (some 1700000000000000000), 1700000000500000000, true) ∧
+    Proofs.C04.EnvOK { tok := some 1700000000500000000, now := 1700000000400000000, arm := 1700000000400000000,
+                       ret := 1700000000500000000 } ∧
+    (Gen.Waiter.Wait {} { tok := some 1700000000500000000, now := 1700000000400000000, arm := 1700000000400000000,
+                          ret := 1700000000500000000 }).2 = true :=
+  ⟨by rfl, by decide, by decide⟩
 
 end Pandora.Props.C19
